@@ -81,50 +81,60 @@ class Fragment(AbstractApplication):
             # no fragmentation
             return
 
-        # take the payload data to fragment it
+        # take the payload data to fragment it, the original bundle is
+        # left as it is until all of the fragments exist
         pyld_blk = ctr.block_num(Bundle.BLOCK_NUM_PAYLOAD)
-        payload_data = pyld_blk.getfieldval('btsd')
-        pyld_blk.delfieldval('btsd')
+        payload_data = bytes(pyld_blk.getfieldval('btsd'))
         payload_size = len(payload_data)
         LOGGER.info('Payload data size %d', payload_size)
         # maximum size of each fragment field
         pyld_size_enc = len(cbor2.dumps(payload_size))
 
-        # two encoded sizes for fragment, one for payload bstr head
-        non_pyld_size = orig_size - payload_size + 3 * pyld_size_enc
-        LOGGER.info('Non-payload size %d', non_pyld_size)
-        if non_pyld_size > mtu:
-            raise RuntimeError('Non-payload size {} too large for route MTU {}'.format(orig_size, mtu))
+        try:
+            fragments = []
+            frag_offset = 0
+            while frag_offset < len(payload_data):
+                fctr = BundleContainer()
+                fctr.bundle.primary = ctr.bundle.primary.copy()
+                fctr.bundle.primary.bundle_flags |= PrimaryBlock.Flag.IS_FRAGMENT
+                fctr.bundle.primary.fragment_offset = frag_offset
+                fctr.bundle.primary.total_app_data_len = payload_size
 
-        frag_offset = 0
-        while frag_offset < len(payload_data):
-            fctr = BundleContainer()
-            fctr.bundle.primary = ctr.bundle.primary.copy()
-            fctr.bundle.primary.bundle_flags |= PrimaryBlock.Flag.IS_FRAGMENT
-            fctr.bundle.primary.fragment_offset = frag_offset
-            fctr.bundle.primary.total_app_data_len = payload_size
+                for blk in ctr.bundle.blocks:
+                    if (frag_offset == 0
+                        or blk.block_flags & CanonicalBlock.Flag.REPLICATE_IN_FRAGMENT
+                            or blk.block_num == Bundle.BLOCK_NUM_PAYLOAD):
+                        newblk = blk.copy()
+                        if newblk.block_num == Bundle.BLOCK_NUM_PAYLOAD:
+                            # each fragment gets its own part of the payload,
+                            # not a decoded copy of the whole
+                            newblk.remove_payload()
+                            newblk.setfieldval('btsd', b'')
+                        fctr.bundle.blocks.append(newblk)
+                # ensure full size (with zero-size payload)
+                fctr.reload()
+                fctr.bundle.fill_fields()
 
-            for blk in ctr.bundle.blocks:
-                if (frag_offset == 0
-                    or blk.block_flags & CanonicalBlock.Flag.REPLICATE_IN_FRAGMENT
-                        or blk.block_num == Bundle.BLOCK_NUM_PAYLOAD):
-                    fctr.bundle.blocks.append(blk.copy())
-            # ensure full size (with zero-size payload)
-            fctr.reload()
-            fctr.bundle.fill_fields()
+                non_pyld_size = len(fctr.bundle)
+                # zero-length payload has one-octet encoded bstr head
+                frag_size = mtu - (non_pyld_size - 1 + pyld_size_enc)
+                if frag_size <= 0:
+                    raise RuntimeError('Non-payload size {} too large for route MTU {}'.format(non_pyld_size, mtu))
 
-            non_pyld_size = len(fctr.bundle)
-            # zero-length payload has one-octet encoded bstr head
-            frag_size = mtu - (non_pyld_size - 1 + pyld_size_enc)
-            if frag_size <= 0:
-                raise RuntimeError('Payload size {} too large for route MTU {}'.format(frag_size, mtu))
+                LOGGER.info('Fragment non-payload size %d, offset %d, (max) size %d', non_pyld_size, frag_offset, frag_size)
+                frag_data = payload_data[frag_offset:(frag_offset + frag_size)]
+                frag_offset += frag_size
 
-            LOGGER.info('Fragment non-payload size %d, offset %d, (max) size %d', non_pyld_size, frag_offset, frag_size)
-            frag_data = payload_data[frag_offset:(frag_offset + frag_size)]
-            frag_offset += frag_size
+                fctr.block_num(Bundle.BLOCK_NUM_PAYLOAD).setfieldval('btsd', frag_data)
+                fragments.append(fctr)
+        except Exception:
+            # cannot fragment: nothing is sent, neither fragments nor the
+            # oversized original
+            ctr.route = None
+            ctr.sender = None
+            raise
 
-            fctr.block_num(Bundle.BLOCK_NUM_PAYLOAD).setfieldval('btsd', frag_data)
-
+        for fctr in fragments:
             glib.idle_add(self._agent.send_bundle, fctr)
 
         # internal action, not delete
